@@ -56,7 +56,11 @@ macro_rules! each_codec_type {
 		each_feature_type!($f, $args);
 	}};
 	(@list $f:ident, $args:tt; $($t:ty),* $(,)?) => {
-		$( $f::<$t> $args; )*
+		$( {
+			// does this type declare DecodeWithMemTracking? (autoref specialisation, resolved per concrete type)
+			MT.with(|m| m.set((&&Probe::<$t>(PhantomData)).is_mt()));
+			$f::<$t> $args;
+		} )*
 	};
 }
 
@@ -82,7 +86,7 @@ macro_rules! each_feature_type {
 		each_codec_type!(@list $f, $args;
 			SNamed, STuple, SUnit, SCompact, SSkip, SSingleCompact, SSingle, SEncodedAs, SGeneric<u16>, SGeneric<String>,
 			STransp, Box<STransp>, [STransp; 3], Box<STranspBig>, Vec<STransp>, CA, Compact<CA>, SHasCompact,
-			EPlain, EDisc, EIdx, ESkip, Vec<EPlain>, Option<EIdx>, [ESkip; 2], Box<EPlain>,
+			EPlain, EDisc, EIdx, ESkip, EBoth, STranspC, Box<STranspC>, [STranspC; 3], Rc<STranspC>, (u8, Box<STransp>), Vec<EPlain>, Option<EIdx>, [ESkip; 2], Box<EPlain>,
 			RV, RB, Tree, RM, RL, Vec<SNamed>, Vec<SUnit>, BTreeMap<u8, EPlain>, Vec<SCompact>
 		);
 		#[cfg(feature = "bit-vec")]
@@ -103,6 +107,13 @@ macro_rules! each_feature_type {
 	};
 }
 
+thread_local! { static MT: std::cell::Cell<bool> = std::cell::Cell::new(false); }
+struct Probe<T>(PhantomData<T>);
+trait IsMt { fn is_mt(&self) -> bool; }
+impl<T: parity_scale_codec::DecodeWithMemTracking> IsMt for &Probe<T> { fn is_mt(&self) -> bool { true } }
+trait NotMt { fn is_mt(&self) -> bool; }
+impl<T> NotMt for Probe<T> { fn is_mt(&self) -> bool { false } }
+
 fn enc_one<T: reg::Reg + parity_scale_codec::Encode>(ctx: &mut Ctx) {
 	drive_enc::<T>(ctx)
 }
@@ -116,7 +127,7 @@ fn rt_seq<T: reg::Reg + parity_scale_codec::Encode + parity_scale_codec::Decode>
 	drive_rt::<T>(ctx, Some(sz))
 }
 fn dec_one<T: reg::Reg + parity_scale_codec::Encode + parity_scale_codec::Decode>(ctx: &mut Ctx) {
-	drive_dec::<T>(ctx, false)
+	drive_dec::<T>(ctx, MT.with(|m| m.get()))
 }
 
 fn main() {
@@ -128,6 +139,7 @@ fn main() {
 	let mut out_path = String::new();
 	let mut type_filter = None;
 	let mut scale = 1usize;
+	let mut part = String::new();
 	let mut i = 1;
 	let cmd = args.get(1).cloned().unwrap_or_default();
 	i += 1;
@@ -139,6 +151,7 @@ fn main() {
 			"--out" => { out_path = args[i + 1].clone(); i += 2 },
 			"--types" => { type_filter = Some(args[i + 1].clone()); i += 2 },
 			"--scale" => { scale = args[i + 1].parse().unwrap(); i += 2 },
+			"--part" => { part = args[i + 1].clone(); i += 2 },
 			x => { eprintln!("unknown arg {}", x); std::process::exit(2) },
 		}
 	}
@@ -160,6 +173,7 @@ fn main() {
 				each_seq_type!(rt_seq, (&mut ctx));
 				each_feature_type!(rt_one, (&mut ctx));
 			},
+			"C04" => { drivers::compact::drive(&mut ctx, &part); },
 			"C03" | "C08" | "C11" | "C12" | "C14" | "C18" | "C19" => { each_codec_type!(dec_one, (&mut ctx)); },
 			_ => { eprintln!("unknown prop {}", prop); std::process::exit(2) },
 		},
